@@ -80,6 +80,19 @@ def run(ctx):
                      f"mutating one table's data changes the other's", site, witness=sorted(set(ans)))
         if not shared:
             ctx.ok("R3", f"group {reg.key}: no mutable object is reachable from the data of both tables", site=site)
+        # ... and initialising a later table does not replace the objects already served (data edited in place would be lost)
+        lost_all = ex.stable_across_later_init()
+        lost = [x for x in lost_all if not x[4]]
+        ctx.check(not lost, "R3", f"group {reg.key}: the atoms' own objects served by the public and by an earlier private table survive the "
+                  "initialisation of a later table",
+                  f"after {mod}.{fn}(T2), {lost[0][0]}.{lost[0][1]}.{lost[0][2]} is {lost[0][3]}: per-atom data edited in place on that table is "
+                  f"silently replaced ({len(lost)} attributes)" if lost else "", site)
+        lost_d = [x for x in lost_all if x[4]]
+        if lost_d:
+            # the class-level default: one construct, reported once per group
+            ctx.fail("R3", f"group {reg.key}: the class-level default object served for data-less atoms is replaced by every later {mod}.{fn}(T)",
+                     f"after {mod}.{fn}(T2), {lost_d[0][0]}.{lost_d[0][1]}.{lost_d[0][2]} is {lost_d[0][3]}: the default is a class attribute that each "
+                     f"init re-creates, so what a data-less atom of any table serves changes when another table is initialised", site)
     # cross-group: init(T) of one group must not disturb what the public table serves for the other groups
     canon = {}
     for reg in lw.registrations:
